@@ -10,8 +10,8 @@ def plan(tier):
                {"module": "SuffixIndexMC_C03s",
                 "cfg": "SuffixIndexMC_C03s.cfg" if q else "SuffixIndexMC_C03s_thorough.cfg",
                 "timeout": 3000, "args": ["-coverage", "1"]}],
-        "families": [{"fam": "sa", "trace": "SuffixIndexTraceSa", "nfiles": 2, "timeout": 3000}],
-        "required_obligations": ["exhaustive_small", "recursion_smallest_witness", "single_lms", "random_multi_sentinel", "random_long", "transform_u16",
+        "families": [{"fam": "sa", "trace": "SuffixIndexTraceSa", "nfiles": 3 if q else 4, "timeout": 3000}],
+        "required_obligations": ["exhaustive_small", "more_than_65535_sentinels", "text_longer_than_2p24_sampled", "recursion_smallest_witness", "single_lms", "random_multi_sentinel", "random_long", "transform_u16",
                                  "transform_u8_limit_255", "transform_u16_limit_256", "int_alphabet_gt_255", "int_u8",
                                  "sample_multi_sentinel", "sample_rate_gt_n", "sample_rate_eq_n", "sample_occ_rate_gt64",
                                  "lcp_plant_126", "lcp_plant_127", "lcp_plant_128", "lcp_plant_200"]
@@ -21,13 +21,18 @@ def plan(tier):
                 "{A,C,$}*$ with <=3 sentinels (n<=7 / 8), random DNA/protein/byte texts up to 2000 (multi-sentinel too), "
                 "repetitive texts up to 300 (unary, periodic, Fibonacci, Thue-Morse, (ab)^k a, runs, squares), "
                 ">255 symbol classes (u16 transform) and the 255/256 limit, dense integer texts (alphabet up to 1200, "
-                "u8/u16/u32/usize), planted repeats of length 125..129, 200, 254..256 around the SmallInts escape value",
+                "u8/u16/u32/usize), a read collection with > 66,000 sentinels (32 bit ranks; validated with the row "
+                "witness form IsValidSAW), the unary text of length 2^24+1 sampled (closed-form family), planted repeats of length 125..129, 200, 254..256 around the SmallInts escape value",
         "bounds": {"mc": "Sym={a,b}+sentinel, n<=6 (quick) / 7 (thorough), <=3 sentinel occurrences; s in 1..n+1, "
                          "Occ rates {1,2,3} with T=1, Esc=2; SA-IS machine: all texts over {a,b}+<=3 sentinels n<=8 (quick) / 10 "
                          "(thorough) plus Fibonacci/Thue-Morse/period-5/(ab)^k a/two-copy texts of length 21..55 "
                          "(recursion depth up to 3)",
                    "impl": "n<=2000 random, <=300 repetitive; s in {1,2,3,5,n,n+1}; Occ rates {1,3,64,65,128}"},
         "assumptions": ["ndJsonDeserialize/TLC evaluate the TLA+ definitions faithfully",
+                        "for the > 66,000-sentinel text the harness logs rk[p] = row of sentinel p (a re-indexing of the "
+                        "observed array, verified against it by the spec; MC lemma WitnessLemma: same verdict as "
+                        "IsValidSA); for the 2^24+1 text only (n, k, s, rows, values) are logged and the suffix array "
+                        "n-1..0 of A^(n-1)$ is closed form (MC lemma UnaryLemma)",
                         "a suffix array is accepted under ANY fixed total order of the sentinel occurrences (final "
                         "sentinel smallest); agreement with the code's present order (reverse text order) is reported "
                         "as MODEL-DRIFT only",
